@@ -54,6 +54,22 @@ def build(v, memo):
             if items and all(isinstance(x, str) for x in items):
                 return np.array(items, dtype=object)
             return np.array(items)
+        if '__ilist__' in v:
+            items = v['__ilist__']
+            if v.get('enum'):
+                cls = find_class(v['enum'])
+                members = list(cls)
+                out = []
+                for c in items:
+                    hit = [m for m in members if m.value == c]
+                    if hit:
+                        out.append(hit[0])
+                    elif isinstance(c, int) and c >= 1000 and c - 1000 < len(members):
+                        out.append(members[c - 1000])
+                    else:
+                        out.append(c)
+                return out
+            return list(items)
         if '__ref__' in v:
             return memo[v['__ref__']]
         if '__obj__' in v:
